@@ -95,8 +95,21 @@ func counterLoop(info *types.Info, x *ast.ForStmt) (types.Object, ast.Expr) {
 	if o == nil {
 		return nil, nil
 	}
-	cond, ok := x.Cond.(*ast.BinaryExpr)
-	if !ok || cond.Op != token.LSS {
+	// `i < E`, possibly as the first conjunct of a longer condition: i still counts towards E
+	var cond *ast.BinaryExpr
+	for e := x.Cond; e != nil; {
+		be, ok := ast.Unparen(e).(*ast.BinaryExpr)
+		if !ok {
+			return nil, nil
+		}
+		if be.Op == token.LAND {
+			e = be.X
+			continue
+		}
+		cond = be
+		break
+	}
+	if cond == nil || cond.Op != token.LSS {
 		return nil, nil
 	}
 	if ci, ok := ast.Unparen(cond.X).(*ast.Ident); !ok || info.ObjectOf(ci) != o {
